@@ -141,6 +141,7 @@ def run(chk):
         cases.append({'kind': 'loader', 'docs': docs, 'order': rng.choice([[0, 1, 0], [0, 1, 2, 0, 1], [1, 0, 0, 1]]), 'hpoa': [DOCS.hpoa_text(1), DOCS.hpoa_text(2)],
                       'hpoa_rich': [DOCS.hpoa_rich(1), DOCS.hpoa_rich(2)]})
     cases.append({'kind': 'loader', 'docs': DOCS.chained_docs(rng, 'HP'), 'order': [0, 1, 0, 1], 'hpoa': [DOCS.hpoa_text(1), DOCS.hpoa_text(2)]})
+    cases.append({'kind': 'loader', 'docs': DOCS.slim_docs('HP'), 'order': [1, 0, 1, 0], 'hpoa': [DOCS.hpoa_text(1), DOCS.hpoa_text(2)]})
     for c in cases:
         chk.count('kind:' + c['kind'])
         if c['kind'] == 'graph':
@@ -158,7 +159,7 @@ def run(chk):
                 'simultaneously open ancestor / descendant iterators (the same query twice in 40%), ALL interleavings of 2-4 next() calls each when <= 60 (thorough: <= 1680), else a random '
                 'sample: each iterator must yield exactly its solo sequence, and the yields are compared with the model in Coq (no repeats, right multiset); (c) digest of the graph '
                 'object before/after (diagnostic); (d) 8 reader threads x 150 random queries against precomputed answers on 30% of the graphs; (e) Obographs documents A,B,A,.. '
-                'through the shared default factories of both loaders vs fresh factories, HPOA files A,B,A through one loader instance; HPOA files whose frequencies depend on the '
+                'through the shared default factories of both loaders vs fresh factories (incl. a slim document with dangling edges loaded before and after the full one), HPOA files A,B,A through one loader instance; HPOA files whose frequencies depend on the '
                 'loader configuration (frequency terms, percentages, negated lines) through five differently configured loaders (cohort size, salvaging) in one process, in two processes with opposite orders: '
                 'every (configuration, file) result must be the same')
     if failing:
